@@ -267,6 +267,40 @@ func parseSweep(c *Ctx, prop string) {
 			}
 		}
 	}
+	// (d2) micro-grammars: every string over the string-literal alphabet and over the
+	// number alphabet up to length 5 (6 thorough), as a literal in a print tag, in a
+	// map key, in a quoted attribute and as a standalone expression.
+	micro := func(alpha []string, maxLen int, wrap func(s string) []parseCase) {
+		var rec func(depth int, s string)
+		rec = func(depth int, s string) {
+			for _, pc := range wrap(s) {
+				do(pc.Kind, pc.Input, pc.From)
+			}
+			if depth == maxLen {
+				return
+			}
+			for _, a := range alpha {
+				rec(depth+1, s+a)
+			}
+		}
+		rec(0, "")
+	}
+	mlen := 5
+	if c.Thorough() {
+		mlen = 6
+	}
+	micro([]string{"\\", "u", "0", "'", "a", "n", "é"}, mlen, func(s string) []parseCase {
+		return []parseCase{
+			{"expr", "'" + s + "'", "string micro-grammar"},
+			{"file", "{namespace a}\n{template .t}\n{'" + s + "'}{['" + s + "': 1]}\n{/template}\n", "string micro-grammar"},
+		}
+	})
+	micro([]string{"0", "1", "x", "e", ".", "-", "+", "A"}, mlen, func(s string) []parseCase {
+		return []parseCase{
+			{"expr", s, "number micro-grammar"},
+			{"file", "{namespace a}\n{template .t}\n{" + s + "}{$x." + s + "}\n{/template}\n", "number micro-grammar"},
+		}
+	})
 	// (e) parse.Expr: bytes and token sequences.
 	do("expr", "", "empty")
 	for a := 0; a < 256; a++ {
